@@ -187,6 +187,11 @@ func (fx *FnExec) havocAll(h *Heap) {
 			keep[n] = fx.heapVar(h, n, fx.e.heapSort[n])
 		}
 	}
+	for _, g := range fx.e.cs.Ghosts {
+		if g.Private {
+			keep["ghost."+g.Name] = fx.heapVar(h, "ghost."+g.Name, g.Sort)
+		}
+	}
 	oldMono := map[string]string{}
 	for _, n := range fx.e.cs.Monotone {
 		if srt, ok := fx.e.heapSort[n]; ok {
